@@ -10,13 +10,27 @@ One lemma per function of the model; `rdFrames_rel` is the one the step lemmas u
 -/
 namespace H2.Client
 
+/-- the frame belongs to a header block: HEADERS (whole, or cut: `hfrag`) or CONTINUATION -/
 def OutFrame.isHeaders : OutFrame → Bool
   | .headers _ _ _ => true
+  | .hfrag _ _ _ => true
+  | .cont _ _ _ _ => true
   | _ => false
+
+/-- the frame opens a stream: a HEADERS frame, with END_HEADERS or without -/
+def OutFrame.opens : OutFrame → Bool
+  | .headers _ _ _ => true
+  | .hfrag _ _ _ => true
+  | _ => false
+
+theorem OutFrame.opens_isHeaders {f : OutFrame} (h : f.opens = true) : f.isHeaders = true := by
+  cases f <;> first | rfl | cases h
 
 /-- a control frame: what the read loop queues for the write loop (neither HEADERS nor DATA) -/
 def OutFrame.isCtl : OutFrame → Bool
   | .headers _ _ _ => false
+  | .hfrag _ _ _ => false
+  | .cont _ _ _ _ => false
   | .data _ _ _ => false
   | _ => true
 
@@ -530,16 +544,17 @@ theorem tableOK_dieWith (c : Conn) (e : Err) : TableOK c (dieWith c e) := by
 
 theorem afterWrites_eq (c : Conn) (fs : List OutFrame) :
     afterWrites c fs = match (wireBytes c fs).1.wbudget with
-      | none => ((wireBytes c fs).1, .frames fs)
+      | none => ((wireBytes c fs).1, .frames (wireFrames c fs))
       | some b =>
-        if (wireBytes c fs).2 ≤ b then ({ (wireBytes c fs).1 with wbudget := some (b - (wireBytes c fs).2) }, .frames fs)
+        if (wireBytes c fs).2 ≤ b then
+          ({ (wireBytes c fs).1 with wbudget := some (b - (wireBytes c fs).2) }, .frames (wireFrames c fs))
         else (dieWith (wireBytes c fs).1 .writeErr, .dead) := by
   unfold afterWrites
   rfl
 
 /-- `afterWrites`: the state is the argument with encoder and budget moved, or that state torn down -/
 theorem afterWrites_cases (c : Conn) (fs : List OutFrame) :
-    (∃ e s b, (afterWrites c fs) = ({ c with enc := e, encTableSet := s, wbudget := b }, .frames fs)) ∨
+    (∃ e s b, (afterWrites c fs) = ({ c with enc := e, encTableSet := s, wbudget := b }, .frames (wireFrames c fs))) ∨
     (∃ e s, (afterWrites c fs) = (dieWith { c with enc := e, encTableSet := s } .writeErr, .dead)) := by
   rw [afterWrites_eq]
   obtain ⟨e, s, h⟩ := wireBytes_shape fs c
